@@ -224,6 +224,9 @@ func (c *SuperCfg) runWorker(a *agg, def *PropDef, bin string, idx, stride int64
 				a.mu.Unlock()
 				continue
 			}
+			if r.HB {
+				continue
+			}
 			if r.Begin != nil {
 				inProgress = *r.Begin
 				continue
